@@ -315,7 +315,8 @@ partial def loop (h : IO.FS.Stream) (d : DS) : IO Unit := do
     let ss2 : S := { pb.s with k := { pb.s.k with connClosed := down } }
     let sr1 : S := { fr.s with k := { fr.s.k with connClosed := down } }
     if cli then loop h { d with c := ss2, sv := sr1 } else loop h { d with sv := ss2, c := sr1 }
-  | "W" :: side :: typ :: sp :: _ =>
+  | "W" :: side :: typ :: sp :: _ | "I" :: side :: typ :: sp :: _ =>
+    -- `I`: the same write and delivery; the second pair of conns of the harness is independent of this one
     if d.mode != "rt" then IO.println "bad-op"; loop h d else
     let cli := side == "c"
     let (gs, gr) := if cli then (d.gc, d.g) else (d.g, d.gc)
